@@ -29,6 +29,9 @@ def build_pool(seed, n=60):
         if rng.random() < 0.6:
             items = randprog.constify(rng, items, 0.4)
         pool.append({'src': '\n'.join(P.render(items)) + '\n', 'compress': rng.random() < 0.5, 'dicts': rng.random() < 0.7})
+        if len(pool) % 5 == 0:
+            pool[-1]['dicts'] = True
+            pool[-1]['stale'] = True
     # include trees (exercise include_dirs)
     for k in range(4):
         pool.append({'src': None, 'tree': k, 'compress': bool(k & 1), 'dicts': True})
@@ -60,6 +63,14 @@ def make_tree(root, k):
 
 def run_entry(asm, entry, root):
     labels, constants = {}, {}
+    if entry.get('stale') and entry.get('src'):
+        # the caller hands in the table of an earlier build: this program's own label names, stale values, another order
+        import re
+        names = re.findall(r'^([A-Za-z_][A-Za-z_0-9]*):$', entry['src'], re.M)
+        rng = random.Random(entry['src'])
+        rng.shuffle(names)
+        for n in names:
+            labels[n] = 2 * rng.randrange(0, 3000)
     kw = {'compress': entry['compress']}
     if entry['dicts']:
         kw.update(labels=labels, constants=constants)
@@ -73,7 +84,7 @@ def run_entry(asm, entry, root):
         src = entry['src']
     try:
         out = bytes(asm.assemble(src, **kw))
-        res = {'ok': True, 'out': out.hex(), 'labels': list(labels.items()), 'constants': list(constants.items())}
+        res = {'ok': True, 'out': out.hex(), 'labels': sorted(labels.items()) if entry.get('stale') else list(labels.items()), 'constants': list(constants.items())}
     except Exception as e:  # noqa
         line = getattr(e, 'line', None)
         f = getattr(line, 'file', None)
